@@ -17,6 +17,12 @@ Inductive cblob :=
 | BLabels (t : N)
 | BBinds (l : list (N * N))
 | BRes (l : list (N * N))
+| BTz (t : N)
+| BTts (x : N * N)
+| BIcd (l : list (N * N))
+| BOta (l : list (N * N))
+| BScenes (l : list (N * N))
+| BSub (x : N * N)
 | BJunk (n : N).
 
 Definition c_dec_fab (b : cblob) := match b with BFab i f => Some (i, f) | _ => None end.
@@ -25,13 +31,21 @@ Definition c_dec_nets (b : cblob) := match b with BNets x => Some x | _ => None 
 Definition c_dec_labels (b : cblob) := match b with BLabels x => Some x | _ => None end.
 Definition c_dec_binds (b : cblob) := match b with BBinds x => Some x | _ => None end.
 Definition c_dec_res (b : cblob) := match b with BRes x => Some x | _ => None end.
+Definition c_dec_tz (b : cblob) := match b with BTz x => Some x | _ => None end.
+Definition c_dec_tts (b : cblob) := match b with BTts x => Some x | _ => None end.
+Definition c_dec_icd (b : cblob) := match b with BIcd x => Some x | _ => None end.
+Definition c_dec_ota (b : cblob) := match b with BOta x => Some x | _ => None end.
+Definition c_dec_scenes (b : cblob) := match b with BScenes x => Some x | _ => None end.
+Definition c_dec_sub (b : cblob) := match b with BSub x => Some x | _ => None end.
 
 Definition c_state := state cblob.
 Definition c_step (fix_label : bool) : c_state -> op -> c_state * list (ev cblob) :=
   step cblob BFab c_dec_fab BBasic c_dec_basic BNets c_dec_nets BLabels c_dec_labels
-       BBinds c_dec_binds BRes c_dec_res fix_label.
+       BBinds c_dec_binds BRes c_dec_res BTz c_dec_tz BTts c_dec_tts BIcd c_dec_icd BOta c_dec_ota
+       BScenes c_dec_scenes BSub c_dec_sub fix_label.
 Definition c_startup : kv cblob -> option (ram * list (kvop cblob)) :=
-  startup cblob c_dec_fab c_dec_basic c_dec_nets c_dec_labels c_dec_binds BRes c_dec_res.
+  startup cblob c_dec_fab c_dec_basic c_dec_nets c_dec_labels c_dec_binds BRes c_dec_res
+          c_dec_tz c_dec_tts c_dec_icd c_dec_ota c_dec_scenes BSub c_dec_sub.
 Definition c_replay : kv cblob -> list (kvop cblob) -> kv cblob := replay cblob.
 Definition c_kvlog : list (ev cblob) -> list (kvop cblob) := kvlog cblob.
 
@@ -42,7 +56,7 @@ Definition init_fabs (n : N) : list (N * fabric) :=
   map (fun i => (i, init_fabric i)) (nrange 1 (N.to_nat n)).
 Definition init_state (n : N) (pase : bool) : c_state :=
   mkState cblob
-    (mkRam (init_fabs n) basic_default nets_reset 0 [] [])
+    (mkRam (init_fabs n) basic_default nets_reset 0 [] [] 0 None [] [] [] [])
     Idle (if pase then Some 0 else None)
     (map (fun p => (fabric_key (fst p), BFab (fst p) (snd p))) (init_fabs n)).
 
@@ -64,6 +78,7 @@ Record oprec := mkOp {
   o_fs : option N;          (* fail-safe armed for this fabric (after the operation) *)
   o_end : N;                (* key-value operations issued by the history up to here *)
   o_left : option N;        (* factory reset: how many keys were left in the store *)
+  o_best_effort : bool;     (* a subscribe request: persisted after the answer, by design *)
   o_cells : cells           (* the live node after the operation *)
 }.
 
@@ -78,8 +93,11 @@ Definition find_cut (cuts : list cutrec) (n : N) : option cutrec :=
 
 Definition cell_ids (a b : cells) : list N := map fst a ++ map fst b.
 
-(** the resumption cache is written by a background task: never "committed" *)
+(** the resumption cache is written by a background task, the subscription table after the answer
+    and without regard to errors: neither is ever "committed" *)
 Definition K_CACHE : N := 267.
+Definition K_SUBS_CELL : N := 2048.
+Definition best_effort_cell (k : N) : bool := (k =? K_CACHE) || (k =? K_SUBS_CELL).
 Definition K_NETS_CELL : N := 258.
 
 Definition staged_cell (fsx : option N) (k : N) : bool :=
@@ -90,12 +108,12 @@ Definition staged_cell (fsx : option N) (k : N) : bool :=
 
 (** cells on which a restart from the store may differ from the live node *)
 Definition same_committed (fsx : option N) (live boot : cells) : bool :=
-  forallb (fun k => (k =? K_CACHE) || staged_cell fsx k || (cell live k =? cell boot k))
+  forallb (fun k => best_effort_cell k || staged_cell fsx k || (cell live k =? cell boot k))
           (cell_ids live boot).
 
 (** equal on everything that is ever "committed" (the cache is not) *)
 Definition same_cells (a b : cells) : bool :=
-  forallb (fun k => (k =? K_CACHE) || (cell a k =? cell b k)) (cell_ids a b).
+  forallb (fun k => best_effort_cell k || (cell a k =? cell b k)) (cell_ids a b).
 
 (** violation codes *)
 Definition V_NO_BOOT : N := 1.          (* a restart from a prefix of the log does not come up *)
@@ -114,7 +132,7 @@ Fixpoint check_ops (i : N) (ops : list oprec) (cuts : list cutrec) : list (N * N
   | [] => []
   | o :: t =>
       (match o_ack o with
-       | Some a => if o_ok o && negb (a =? o_nkv o) then [(V_ACK_EARLY, i)] else []
+       | Some a => if o_ok o && negb (o_best_effort o) && negb (a =? o_nkv o) then [(V_ACK_EARLY, i)] else []
        | None => []
        end) ++
       (match find_cut cuts (o_end o) with
